@@ -482,6 +482,20 @@ func (w *World) find(sub, pkg, name string) *Tgt {
 	return nil
 }
 
+// namedAnywhere: some target of the world has the package and name of the label in arg, in whatever repository.
+func (w *World) namedAnywhere(arg string) bool {
+	l, err := core.TryParseBuildLabel(strings.SplitN(arg, "|", 2)[0], w.Self.Pkg, "")
+	if err != nil {
+		return false
+	}
+	for _, t := range w.Graph {
+		if t.Pkg == l.PackageName && t.Name == l.Name && t.Sub != l.Subrepo {
+			return true
+		}
+	}
+	return false
+}
+
 func (w *World) hasSubrepos() bool {
 	for _, t := range w.Graph {
 		if t.Sub != "" {
@@ -1001,9 +1015,10 @@ func inProcess(c *lib.Ctx) {
 			cmd := s.text()
 			e := expect(w, b, s)
 			var o outcome
-			if strings.Contains(s.Arg, "|") && !e.valid {
-				// log.Fatalf on an unknown entry point ends the process; a sequence that should be rejected for another
-				// reason runs in a child too, so that a regression which resolves it anyway is reported, not a crash
+			if strings.Contains(s.Arg, "|") && !e.valid && (e.why == "unknown entry point" || w.namedAnywhere(s.Arg)) {
+				// log.Fatalf on an unknown entry point ends the process; a sequence that should be rejected because the
+				// label is a dependency only in another repository runs in a child too, so that a regression which
+				// resolves it anyway is reported, not a crash
 				o = expandInChild(w, false, cmd)
 			} else {
 				o = expand(b, false, cmd)
